@@ -21,6 +21,7 @@
         "budget": {"quick": 60, "thorough": 1800},
         "chunk": 200,
         "shrink_s": 45,
+        "inflight": True,
         "det_runs": 300,
         "rule": ("rapid-drawn sequences (quick <=30, thorough <=70 operations) of Put / Delete / PutBatch(MapToMPTBatch: puts, "
                  "overwrites, deletes of present and absent keys) / Flush(index) / Collapse(0-4) / reload (new Trie from "
@@ -76,6 +77,7 @@
         "budget": {"quick": 60, "thorough": 1800},
         "chunk": 200,
         "shrink_s": 45,
+        "inflight": True,
         "det_runs": 300,
         "rule": ("rapid-drawn sequences of 1-12 (thorough 1-36) blocks, each a batch of 0-5 puts/deletes over 2-20 keys in four "
                  "prefix groups (one group prefix extends another) and 1-4 values (so that equal values and equal sub-tries "
